@@ -541,6 +541,17 @@ def edited_fields(ctx, rng, n: int) -> Iterator[Tuple[str, Callable]]:
             if kind == "zero-width":
                 child.p.width = 0
                 top.s.width = 0
+            elif kind == "zero-width-bare":
+                # (nothing inside the child hangs on the port: no width comparison notices)
+                child = h.Module(name=f"FldCh{next(_uid)}")
+                child.p = h.Port()
+                child.p.width = 0
+                top = h.Module(name=f"FldTop{next(_uid)}")
+                top.s = h.Signal()
+                top.s.width = 0
+                top.t = h.Signal(width=2)
+                top.t.width = -2
+                top.i = child(p=top.s)
             elif kind == "negative-width":
                 top.t.width = -2
             elif kind == "string-width":
@@ -558,5 +569,5 @@ def edited_fields(ctx, rng, n: int) -> Iterator[Tuple[str, Callable]]:
 
     for kind in ("append-repeat", "assign-repeat", "rename-repeat", "reserved-domain", "ideal-domain", "empty-name", "unnamed-port", "internal-port"):
         yield f"external module edited after construction: {kind}", ext(kind)
-    for kind in ("zero-width", "negative-width", "string-width", "bool-width", "readd-as-port", "readd-as-signal"):
+    for kind in ("zero-width", "zero-width-bare", "negative-width", "string-width", "bool-width", "readd-as-port", "readd-as-signal"):
         yield f"signal edited after construction: {kind}", sig(kind)
